@@ -10,7 +10,7 @@ type Pt struct{ X, Y *big.Int }
 
 func Identity() Pt { return Pt{new(big.Int), big.NewInt(1)} }
 
-func (p Pt) Equal(q Pt) bool { return p.X.Cmp(q.X) == 0 && p.Y.Cmp(q.Y) == 0 }
+func (p Pt) Equal(q Pt) bool  { return p.X.Cmp(q.X) == 0 && p.Y.Cmp(q.Y) == 0 }
 func (p Pt) IsIdentity() bool { return p.X.Sign() == 0 && p.Y.Cmp(one) == 0 }
 func (p Pt) Neg() Pt          { return Pt{fneg(p.X), new(big.Int).Set(p.Y)} }
 
@@ -93,9 +93,9 @@ func pointFromY(y *big.Int, sign uint) (Pt, bool) {
 
 // DecodeInfo describes how a 32-byte string decodes.
 type DecodeInfo struct {
-	OK        bool // masked y (mod p) is on the curve
-	Pt        Pt
-	Canonical bool // y < p and not (x == 0 with sign bit set)
+	OK         bool // masked y (mod p) is on the curve
+	Pt         Pt
+	Canonical  bool // y < p and not (x == 0 with sign bit set)
 	SmallOrder bool
 }
 
